@@ -13,6 +13,7 @@ import (
 	"encoding/binary"
 	"encoding/json"
 	"fmt"
+	"io"
 	"time"
 
 	"github.com/blevesearch/mmap-go"
@@ -136,6 +137,12 @@ func ScanFooter(options *StoreOptions, fref *FileRef, fileName string,
 	pos int64) (*Footer, error) {
 	footerBeg := make([]byte, footerBegLen)
 
+	finfo, err := fref.file.Stat()
+	if err != nil {
+		return nil, err
+	}
+	fileSize := finfo.Size()
+
 	// Align pos to the start of a page (floor).
 	pos = pageAlignFloor(pos)
 
@@ -146,10 +153,12 @@ func ScanFooter(options *StoreOptions, fref *FileRef, fileName string,
 			}
 
 			n, err := fref.file.ReadAt(footerBeg, pos)
-			if err != nil {
+			if err != nil && err != io.EOF {
 				return nil, err
 			}
 
+			// A short read (EOF) means the tail of the file is too short
+			// to hold a footer, such as after a crash; keep scanning.
 			if n == footerBegLen &&
 				bytes.Equal(StoreMagicBeg, footerBeg[:lenMagicBeg]) &&
 				bytes.Equal(StoreMagicBeg, footerBeg[lenMagicBeg:2*lenMagicBeg]) {
@@ -160,16 +169,15 @@ func ScanFooter(options *StoreOptions, fref *FileRef, fileName string,
 			pos -= int64(StorePageSize)
 		}
 
-		// Read and check the potential footer.
+		// Read and check the potential footer.  Anything that does not
+		// hold up (a footer torn by a crash, or application bytes at the
+		// start of a page that only look like a footer) is skipped and the
+		// scan continues backwards.
 		footerBegBuf := bytes.NewBuffer(footerBeg[2*lenMagicBeg:])
 
 		var version uint32
 		if err := binary.Read(footerBegBuf, StoreEndian, &version); err != nil {
 			return nil, err
-		}
-		if version != StoreVersion {
-			return nil, fmt.Errorf("store: version mismatch, "+
-				"current: %v != found: %v", StoreVersion, version)
 		}
 
 		var length uint32
@@ -177,63 +185,65 @@ func ScanFooter(options *StoreOptions, fref *FileRef, fileName string,
 			return nil, err
 		}
 
-		data := make([]byte, int64(length)-int64(footerBegLen))
+		if int64(length) >= int64(footerBegLen+footerEndLen) &&
+			pos+int64(length) <= fileSize {
+			data := make([]byte, int64(length)-int64(footerBegLen))
 
-		n, err := fref.file.ReadAt(data, pos+int64(footerBegLen))
-		if err != nil {
-			return nil, err
+			n, err := fref.file.ReadAt(data, pos+int64(footerBegLen))
+			if err != nil && err != io.EOF {
+				return nil, err
+			}
+
+			if n == len(data) &&
+				bytes.Equal(StoreMagicEnd, data[n-lenMagicEnd*2:n-lenMagicEnd]) &&
+				bytes.Equal(StoreMagicEnd, data[n-lenMagicEnd:]) {
+
+				content := int(length) - footerBegLen - footerEndLen
+				b := bytes.NewBuffer(data[content:])
+
+				var offset int64
+				if err = binary.Read(b, StoreEndian, &offset); err != nil {
+					return nil, err
+				}
+
+				var length1 uint32
+				if err = binary.Read(b, StoreEndian, &length1); err != nil {
+					return nil, err
+				}
+
+				if offset == pos && length1 == length {
+					// The framing is complete and consistent.
+					if version != StoreVersion {
+						return nil, fmt.Errorf("store: version mismatch, "+
+							"current: %v != found: %v", StoreVersion, version)
+					}
+
+					f := &Footer{refs: 1, fileName: fileName, filePos: offset}
+
+					err = json.Unmarshal(data[:content], f)
+					if err == nil {
+						// The child footers were allocated by json.Unmarshal: give
+						// them the ref-count their parent footer holds, like the child
+						// footers built by persist and compaction have, so that closing
+						// a child collection snapshot does not release them.
+						f.initChildRefs()
+
+						// json.Unmarshal would have just loaded the map.
+						// We now need to load each segment into the map.
+						// Also recursively load child footer segment stacks.
+						err = f.loadSegments(options, fref)
+						if err != nil {
+							return nil, err
+						}
+
+						return f, nil
+					}
+					// Else, the content of the footer is damaged.
+				}
+			}
 		}
-
-		if n == len(data) &&
-			bytes.Equal(StoreMagicEnd, data[n-lenMagicEnd*2:n-lenMagicEnd]) &&
-			bytes.Equal(StoreMagicEnd, data[n-lenMagicEnd:]) {
-
-			content := int(length) - footerBegLen - footerEndLen
-			b := bytes.NewBuffer(data[content:])
-
-			var offset int64
-			if err = binary.Read(b, StoreEndian, &offset); err != nil {
-				return nil, err
-			}
-			if offset != pos {
-				return nil, fmt.Errorf("store: offset mismatch, "+
-					"wanted: %v != found: %v", offset, pos)
-			}
-
-			var length1 uint32
-			if err = binary.Read(b, StoreEndian, &length1); err != nil {
-				return nil, err
-			}
-			if length1 != length {
-				return nil, fmt.Errorf("store: length mismatch, "+
-					"wanted: %v != found: %v", length1, length)
-			}
-
-			f := &Footer{refs: 1, fileName: fileName, filePos: offset}
-
-			err = json.Unmarshal(data[:content], f)
-			if err != nil {
-				return nil, err
-			}
-
-			// The child footers were allocated by json.Unmarshal: give
-			// them the ref-count their parent footer holds, like the child
-			// footers built by persist and compaction have, so that closing
-			// a child collection snapshot does not release them.
-			f.initChildRefs()
-
-			// json.Unmarshal would have just loaded the map.
-			// We now need to load each segment into the map.
-			// Also recursively load child footer segment stacks.
-			err = f.loadSegments(options, fref)
-			if err != nil {
-				return nil, err
-			}
-
-			return f, nil
-		}
-		// Else, invalid footer - StoreMagicEnd missing and/or file
-		// pos out of bounds.
+		// Else, invalid footer - StoreMagicEnd missing, inconsistent
+		// framing and/or file pos out of bounds.
 
 		// Footer was invalid, so keep scanning.
 		pos -= int64(StorePageSize)
